@@ -4,7 +4,6 @@ package telemetry
 
 import (
 	"bufio"
-	"encoding/binary"
 	"encoding/json"
 	"fmt"
 	"os"
@@ -439,29 +438,7 @@ func TestVerifC16Table(t *testing.T) {
 // c16Zone builds a time zone (TZif version 1 data) whose UTC offset changes
 // from `before` to `after` seconds at the instant at.
 func c16Zone(at time.Time, before, after int32) *time.Location {
-	var b []byte
-	be32 := func(v uint32) { b = binary.BigEndian.AppendUint32(b, v) }
-	b = append(b, "TZif"...)
-	b = append(b, 0)
-	b = append(b, make([]byte, 15)...)
-	be32(0) // UT/local indicators
-	be32(0) // standard/wall indicators
-	be32(0) // leap seconds
-	be32(1) // transitions
-	be32(2) // local time types
-	be32(8) // abbreviation bytes
-	be32(uint32(int32(at.Unix())))
-	b = append(b, 1)
-	be32(uint32(before))
-	b = append(b, 0, 0)
-	be32(uint32(after))
-	b = append(b, 1, 4)
-	b = append(b, "AAA\x00BBB\x00"...)
-	loc, err := time.LoadLocationFromTZData("Verif/Shift", b)
-	if err != nil {
-		return time.UTC
-	}
-	return loc
+	return verifrt.ShiftZone(at, before, after)
 }
 
 func TestVerifC16Token(t *testing.T) {
